@@ -84,6 +84,17 @@
                                  exchanges and hands the keep-alive the other's reply ((X), (O) false), another puts
                                  one session sequence number on two datagrams ((S) false); with both threads addressing
                                  the BMC the same schedules are runs of the one-lock model
+  * `whole_exchange_owned_by_its_caller`  clause (W) of the monitor (the datagrams of one call - the request and its
+                                 retransmissions - are consecutive datagrams of the log) together with (X) means: every
+                                 datagram between two datagrams of one call is the calling thread's; for every log.
+                                 (That every run of the MODEL satisfies (W) is not stated as a wire-log theorem: the model
+                                 does not record the datagrams per call; what it proves is `mutual_exclusion` with the
+                                 retry loop inside the lock block.  (W) is judged on the real code on every schedule.)
+  * `release_in_retry_handler_counterexample`  the model whose retry handler releases and re-takes the lock before another
+                                 attempt (`stepR`): one schedule puts another thread's whole exchange between a request
+                                 and its retransmission; clauses (X) (S) (O) (C) accept that log, clause (W)
+                                 (`Spec.Threads.wholeExchanges`, judged on the real code) does not; the one-lock-hold
+                                 model gives consecutive datagrams under the same schedule
   * `source_is_safe_variant`, `source_cfg_safe`, `today_all_schedules`  TODAY's source is the safe variant of all three
                                  (stopper joins; number allocated inside the lock block; wrapper packed by the
                                  transmission of every attempt), so the theorems above
@@ -102,6 +113,7 @@
 -/
 import PyIpmi.Lemmas.ThreadsProgress
 import PyIpmi.Lemmas.ThreadsSeq
+import PyIpmi.Lemmas.ThreadsWhole
 import PyIpmi.Gen.Threads
 namespace PyIpmi.Props.C14
 open PyIpmi.Threads PyIpmi.Spec.Threads
@@ -198,6 +210,76 @@ theorem lock_per_target_counterexample :
       (run (init twoTargetsCfg) (sameSeqSched ++ fillSched)).wireChron ∧
     (run (init twoTargetsCfg) (sameSeqSched ++ fillSched)).wireChron = [.tx 0 0 8 5 1, .rx 0 0, .tx 1 1 9 6 1, .rx 1 1] :=
   ⟨by decide +kernel, by decide +kernel, by decide +kernel, by decide +kernel, by decide +kernel, by decide +kernel⟩
+
+/-! ## clause (W): a retransmission belongs to the exchange it repeats -/
+
+/-- **What clause (W) adds to clause (X)** - for EVERY wire log and EVERY list of calls, whatever produced them: if the
+log satisfies (X) and the calls satisfy (W), every datagram transmitted between two datagrams of one call (its request
+and a retransmission of it, say) was transmitted by the calling thread: no other thread's exchange lies inside the call's
+exchange.  (With (X): every reception / time-out in that stretch is the calling thread's too.) -/
+theorem whole_exchange_owned_by_its_caller (w : List WEv) (cs : List Call) (hx : exchangesOk w = true)
+    (hw : wholeExchanges w cs = true) (c : Call) (hc : c ∈ cs) (a b : Nat) (ha : a ∈ c.sent) (hb : b ∈ c.sent)
+    (t n s r k : Nat) (ht : WEv.tx t n s r k ∈ w) (h1 : a ≤ n) (h2 : n ≤ b) : t = c.tid := by
+  simp only [wholeExchanges, List.all_eq_true, Bool.and_eq_true] at hw
+  obtain ⟨hcons, hsent⟩ := hw c hc
+  have hn := consecutive_between c.sent hcons a b n ha hb h1 h2
+  obtain ⟨s', r', k', hmem⟩ := sentBy_mem w c.tid n (hsent n hn)
+  exact (serial_names_one w Mon.init hx).2 t c.tid n s r k s' r' k' ht hmem
+
+/-! ## the lock released inside the retry handler (NOT the source: `Shape.lockOpsElsewhere = 0`, `Shape.retryLoop`) -/
+
+/-- the model's system when the `except socket.timeout:` handler of the retry loop does `transaction_lock.release();
+transaction_lock.acquire()` before another attempt: `back` are the threads that have released the lock there and have
+not got it back yet -/
+structure SysR where
+  sys : Sys
+  back : List Nat := []
+
+/-- thread `t` is about to take a `socket.timeout` (nothing queued, nothing in the socket) with an attempt left -/
+def timesOutWithAttemptLeft (s : Sys) (t : Nat) : Bool :=
+  match s.thr[t]? with
+  | some th => th.pc == .recv && s.q.isEmpty && s.sock.isEmpty && decide (th.retry + 1 ≤ s.par.maxRetries)
+  | none => false
+
+/-- One step of thread `t` in that variant: the step of the model, except that the time-out step with an attempt left
+also frees the lock cell, and the thread's next step is to take the lock again - enabled only while the cell is free. -/
+def stepR (st : SysR) (t : Nat) : Option SysR :=
+  if st.back.contains t then
+    (if st.sys.lock.isNone then some ⟨{ st.sys with lock := some t }, st.back.erase t⟩ else none)
+  else
+    match step st.sys t with
+    | none => none
+    | some s' =>
+      if timesOutWithAttemptLeft st.sys t then some ⟨{ s' with lock := none }, t :: st.back⟩ else some ⟨s', st.back⟩
+
+def runR (st : SysR) (sched : List Nat) : SysR := sched.foldl (fun st t => (stepR st t).getD st) st
+
+/-- two application threads, one call each, `Rmcp(max_retries=1)`, the reply to the first datagram of the run is lost -/
+def retryCfg : Cfg := { nextSeq := 4, sessSeq := 7, xl := 0, threads := [(1, 1), (1, 1)], maxRetries := 1, loss := [true] }
+/-- thread 0 transmits and times out; thread 1 - a fair lock hands it the lock at the release - runs its whole call;
+thread 0 takes the lock again, retransmits, is answered -/
+def handOffSched : List Nat := List.replicate 11 0 ++ List.replicate 14 1 ++ List.replicate 12 0
+
+/-- **A lock released between a time-out and the retransmission does not span the exchange.**  Under `handOffSched`
+the variant puts thread 1's complete exchange between thread 0's request (datagram 0) and its retransmission
+(datagram 2).  Datagram by datagram nothing is wrong - the monitor of clauses (X) (S) (O) (C) ACCEPTS that log: every
+datagram is answered or timed out by its own sender, the session sequence numbers increase, each caller has its own
+reply -; clause (W) (`Spec.Threads.wholeExchanges`: the datagrams of one call are consecutive) is false.  The model
+(`run`: the lock is held from the first transmission to the end of the call) turns the same schedule (continued until
+thread 1, which had to wait, has finished too) into the log with
+thread 0's datagrams 0, 1 next to each other, which satisfies (W).  That the source never releases the lock inside the
+block is `Shape.lockOpsElsewhere = 0` and `Shape.retryLoop` (`source_shape`); the schedule is found on the real code by
+the lock-hand-off sweep of the retransmission stream. -/
+theorem release_in_retry_handler_counterexample :
+    (runR ⟨init retryCfg, []⟩ handOffSched).sys.wireChron =
+      [.tx 0 0 8 5 1, .to 0 0, .tx 1 1 9 6 1, .rx 1 1, .tx 0 2 10 5 1, .rx 0 2] ∧
+    accepts (runR ⟨init retryCfg, []⟩ handOffSched).sys.wireChron
+      (runR ⟨init retryCfg, []⟩ handOffSched).sys.results = true ∧
+    wholeExchanges (runR ⟨init retryCfg, []⟩ handOffSched).sys.wireChron [⟨0, [0, 2]⟩, ⟨1, [1]⟩] = false ∧
+    (run (init retryCfg) (handOffSched ++ List.replicate 14 1)).wireChron =
+      [.tx 0 0 8 5 1, .to 0 0, .tx 0 1 9 5 1, .rx 0 1, .tx 1 2 10 6 1, .rx 1 2] ∧
+    wholeExchanges (run (init retryCfg) (handOffSched ++ List.replicate 14 1)).wireChron [⟨0, [0, 1]⟩, ⟨1, [2]⟩] = true :=
+  ⟨by decide +kernel, by decide +kernel, by decide +kernel, by decide +kernel, by decide +kernel⟩
 
 /-- a test configuration with the variant flags the translator read from today's source -/
 def ofSource (c : Cfg) : Cfg :=
